@@ -2,8 +2,6 @@ package main
 
 import (
 	"fmt"
-
-	"golang.org/x/tools/go/ssa"
 )
 
 func init() {
@@ -41,37 +39,37 @@ func runC09(c *Ctx) {
 	} else {
 		c.Fail("R4", "applyAdd", apply.Pos(), "writer of the replicated batch not found")
 	}
-	// R5
-	at := p.MustMethod(pkgConsensus, "RaftNode", "attemptToFetchSnapshot")
+	transferRequest(c, "R5")
+}
+
+// transferRequest: what the follower tells the leader when it asks for a state transfer.
+func transferRequest(c *Ctx, rule string) {
+	p := c.P
+	// R5: the request is built somewhere below Restore (in the fetching helper or inline); described in
+	// Restore's own vocabulary: the follower reports the version of its persisted FSM state
 	restore := p.MustMethod(pkgConsensus, "RaftNode", "Restore")
-	var req *ssa.Alloc
-	eachInstr(at, func(in ssa.Instruction) {
-		if al, ok := in.(*ssa.Alloc); ok && namedIs(deref(al.Type()), pkgConsensus, "FetchSnapshotRequest") {
-			req = al
-		}
-	})
+	rrg := p.RegionOf(restore, 3)
+	reqs := rrg.Built(pkgConsensus, "FetchSnapshotRequest")
 	ok := false
-	var why string
-	if req != nil {
-		_, bf := p.storesTo(req)
+	why := "no FetchSnapshotRequest is built on the restore path"
+	pos := restore.Pos()
+	if len(reqs) == 1 {
+		bf := reqs[0].Fields
+		pos = reqs[0].Alloc.Pos()
 		get := func(f string) *Term {
 			if len(bf[f]) == 1 {
-				return p.TermOf(bf[f][0])
+				return bf[f][0]
 			}
 			return mk("unknown", f, nil)
 		}
 		la, st, en := get("LastAppliedVersion"), get("StartSeqNum"), get("EndSeqNum")
-		ok = la.IsParam(at, 2) && en.IsParam(at, 1) && st.Op == "invoke" && st.Name == "LastWALSequenceNumber"
+		okLA := la.IsField("BalloonVersion", func(b *Term) bool { return b.IsField("state", isParam(restore, 0)) })
+		okEn := en.IsField("LastSeqNum", nil)
+		okSt := st.Op == "invoke" && st.Name == "LastWALSequenceNumber"
+		ok = okLA && okEn && okSt
 		why = fmt.Sprintf("LastAppliedVersion←%s StartSeqNum←%s EndSeqNum←%s", la, st, en)
-		// and Restore passes (snap.LastSeqNum, n.state.BalloonVersion)
-		for _, call := range callsIn(restore, func(k *ssa.CallCommon) bool { return k.StaticCallee() == at }) {
-			cc := callCommon(call)
-			a1, a2 := p.TermOf(cc.Args[1]), p.TermOf(cc.Args[2])
-			if !(a1.IsField("LastSeqNum", nil) && a2.IsField("BalloonVersion", func(b *Term) bool { return b.IsField("state", isParam(restore, 0)) })) {
-				ok = false
-				why += fmt.Sprintf("; Restore calls it with (%s, %s)", a1, a2)
-			}
-		}
+	} else if len(reqs) > 1 {
+		why = fmt.Sprintf("%d requests built on the restore path", len(reqs))
 	}
-	c.Check(ok, "R5", funcName(at), at.Pos(), "request = {follower's applied version, local WAL sequence number, snapshot's last sequence number}", "state-transfer request built as "+why)
+	c.Check(ok, rule, funcName(restore)+":transfer-request", pos, "request = {n.state.BalloonVersion, local WAL sequence number, snapshot's last sequence number}", "state-transfer request built as "+why+"; the leader's filter interprets LastAppliedVersion as the last applied version (n.state.BalloonVersion), any other quantity (e.g. the number of events) makes it skip or resend a batch")
 }
